@@ -1,5 +1,6 @@
 (* C08 — output whitespace is canonical. Statements only. *)
 From PasfmtVerif Require Import Model.Pipeline Model.Reconstruct Model.Canon Proofs.ReconstructProofs Proofs.PipelineProofs.
+From PasfmtVerif Require Import Model.WrapApply Proofs.WrapApplyProofs.
 
 (* (a) a decided token that starts a line: line breaks, then a whole number of indentation units
    (tabs iff use_tabs), no spaces *)
@@ -31,3 +32,45 @@ Proof. exact generated_pipeline_order. Qed.
 Theorem C08_units_refuted_when_saturated :
   exists tw ci, 255 < ci * tw /\ length (rs_cont (rs_of_config false false tw ci)) = 255%nat /\ (255 mod tw <> 0).
 Proof. exact indentation_units_refuted_saturation. Qed.
+
+(* ---- the wrapper's EFFECT for ANY decisions of its search (Model/WrapApply.v, tied by the decision log):
+   H-W1 for decided tokens is a theorem ---- *)
+Theorem C08_wrapper_decided_tokens_canonical :
+  forall (rs : rsettings) (fm : bool) (visits : list nat)
+    (plan1 plan2 : list (nat * decision)) (l : list (token * fmt)) 
+    (i : nat) (p : token * fmt),
+  nth_error l i = Some p ->
+  f_sp (snd p) <= 1 ->
+  In i (map fst plan1) ->
+  exists q : ftoken,
+    nth_error (olf_effect rs fm visits plan1 plan2 l) i = Some q /\ canon_tok false q = true.
+Proof. exact olf_effect_decided_canon. Qed.
+
+Theorem C08_wrapper_undecided_tokens_keep_layout :
+  forall (rs : rsettings) (fm : bool) (visits : list nat)
+    (plan1 plan2 : list (nat * decision)) (l : list ftoken) (i : nat) 
+    (p : ftoken),
+  nth_error l i = Some p ->
+  ~ In i (map fst plan1) ->
+  ~ In i (map fst plan2) ->
+  exists q : ftoken,
+    nth_error (olf_effect rs fm visits plan1 plan2 l) i = Some q /\ same_layout p q.
+Proof. exact olf_effect_undecided. Qed.
+
+Theorem C08_wrapper_untouched :
+  forall (rs : rsettings) (fm : bool) (visits : list nat)
+    (plan1 plan2 : list (nat * decision)) (l : list ftoken),
+  pointwise untouched l (olf_effect rs fm visits plan1 plan2 l).
+Proof. exact olf_effect_untouched. Qed.
+
+Theorem C08_wrapper_ignored_text :
+  forall (rs : rsettings) (fm : bool) (visits : list nat)
+    (plan1 plan2 : list (nat * decision)) (l : list (token * fmt)) 
+    (j : nat) (p : token * fmt),
+  nth_error l j = Some p ->
+  f_ignored (snd p) = true ->
+  exists q : ftoken,
+    nth_error (olf_effect rs fm visits plan1 plan2 l) j = Some q /\
+    fst q = fst p /\ f_ignored (snd q) = true.
+Proof. exact olf_effect_ignored_text. Qed.
+
